@@ -62,6 +62,9 @@ const NAME_POOL: &[&str] = &[
     "ABC1", "GENE", "Marfan", "Syndrome: type 1", "é",
     // words that mean something elsewhere in the file formats
     "NOT", "obsolete finding", "true", "HP:0000118", "OMIM:1", "1", "-", "Term", "is_a: x",
+    // white space at the ends (ASCII, no-break, ideographic; no tab or line end: the text formats
+    // cannot carry those inside a name), a replacement character at the end
+    "padded ", " padded", "nbsp\u{a0}", "wide\u{3000}", "ABC1\u{fffd}",
 ];
 
 pub fn gen_name(rng: &mut Rng) -> String {
@@ -91,6 +94,14 @@ pub fn gen_ids(rng: &mut Rng, n: usize, reserved: &[u32]) -> Vec<u32> {
         0u32, 2, 9_999_999, 9_999_998, 117, 119, 255, 256, 257, 511, 512, 4095, 4096, 65_535, 65_536, 65_537, 1_000_000,
         4_739_151, 4_739_152, 8_388_607, 8_388_608,
     ];
+    if n >= 4 && rng.chance(1, 6) {
+        // the extreme ids and their neighbours TOGETHER (packed keys, off-by-one table sizes)
+        for id in [0u32, 1, 9_999_998, 9_999_999] {
+            if out.len() < n && used.insert(id) {
+                out.push(id);
+            }
+        }
+    }
     while out.len() < n {
         let id = match rng.below(10) {
             0 => *rng.pick(&borders),
@@ -480,6 +491,72 @@ pub fn gen_fan(rng: &mut Rng, p: usize) -> Facts {
         }
         f.recs[k].push((8, gen_name(rng)));
         f.links[k].push((8, low[1]));
+    }
+    f.version = (2024, 1, 1);
+    f
+}
+
+/// A trunk of 31..45 single-parent terms below HP:1 / HP:118 (so that terms near its end have more
+/// than 30 ancestors, the inline capacity of a group), a few skip links along it, and below it a
+/// handful of terms with two or three parents - trunk end, each other, and SHORTCUTS to terms high
+/// up the trunk - plus one term with 11..14 direct parents of which some are ancestors of others.
+/// Few diamonds, so that the exponential upward path enumeration of the crate stays cheap.
+pub fn gen_trunk(rng: &mut Rng) -> Facts {
+    let len = rng.range(31, 45) as usize;
+    let ids = gen_ids(rng, len + 22, &[1, 118]);
+    let mut f = Facts::default();
+    f.terms.push((1, "All".to_string()));
+    f.terms.push((118, "Phenotypic abnormality".to_string()));
+    f.edges.push((1, 118));
+    for id in &ids {
+        f.terms.push((*id, gen_name(rng)));
+    }
+    let (trunk, rest) = ids.split_at(len);
+    f.edges.push((118, trunk[0]));
+    for i in 1..len {
+        f.edges.push((trunk[i - 1], trunk[i]));
+    }
+    for _ in 0..rng.below(3) {
+        let a = rng.below(len as u64 - 3) as usize;
+        let b = rng.range(a as u64 + 2, len as u64 - 1) as usize;
+        f.edges.push((trunk[a], trunk[b])); // skip link
+    }
+    // leaves: rest[0..6]
+    let high = |rng: &mut Rng| trunk[rng.below(6) as usize];
+    let low = |rng: &mut Rng| trunk[len - 1 - rng.below(3) as usize];
+    f.edges.push((low(rng), rest[0]));
+    f.edges.push((high(rng), rest[0])); // shortcut
+    f.edges.push((low(rng), rest[1]));
+    f.edges.push((rest[0], rest[2]));
+    f.edges.push((rest[1], rest[2]));
+    f.edges.push((high(rng), rest[3]));
+    f.edges.push((rest[2], rest[3]));
+    f.edges.push((trunk[len / 2], rest[4]));
+    f.edges.push((rest[4], rest[5]));
+    f.edges.push((low(rng), rest[5]));
+    f.edges.push((118, rest[5])); // shortcut to the top
+    // the many-parent term rest[6]: parents rest[7..] (11..14 of them); some of those are chained
+    let np = rng.range(11, 14) as usize;
+    let ps = &rest[7..7 + np];
+    for (i, p) in ps.iter().enumerate() {
+        f.edges.push((*p, rest[6]));
+        // hang the parents below the trunk at various heights; every third one below its
+        // predecessor (so one direct parent is an ancestor of another direct parent)
+        if i % 3 == 2 {
+            f.edges.push((ps[i - 1], *p));
+        } else {
+            let at = rng.below(len as u64) as usize;
+            f.edges.push((trunk[at], *p));
+        }
+    }
+    f.edges.sort_unstable();
+    f.edges.dedup();
+    for k in 0..3 {
+        for r in 1..=2u32 {
+            f.recs[k].push((r, gen_name(rng)));
+            f.links[k].push((r, *rng.pick(rest)));
+            f.links[k].push((r, trunk[rng.below(len as u64) as usize]));
+        }
     }
     f.version = (2024, 1, 1);
     f
